@@ -1462,7 +1462,15 @@ func runOutcome(sc scenario) *outcome {
 		oc.attempts = attempt
 		r, ok := runScenario(sc)
 		if !ok {
-			oc.hits = []hit{{"c20-op-timeout", r.stuck}}
+			// an operation of the scenario did not complete within opTimeout. On a starved machine (many checks running
+			// side by side) that happens to healthy code too, e.g. "the canary Loop never fired" right after start-up:
+			// the scenario is re-run like a disturbed one; only a scenario that is stuck in EVERY attempt is reported
+			if attempt < tries {
+				oc.disturbed = append(oc.disturbed, "stuck: "+r.stuck)
+				time.Sleep(time.Duration(attempt) * 500 * time.Millisecond)
+				continue
+			}
+			oc.hits = []hit{{"c20-op-timeout", fmt.Sprintf("%s (in each of %d attempts)", r.stuck, tries)}}
 			return oc
 		}
 		if r.disturbed != "" {
